@@ -20,6 +20,8 @@ import (
 
 type CheckCfg struct {
 	Pkg            string   `json:"pkg"`
+	SkipInit       []string `json:"skip_init"`  // import paths whose package initialiser is not executed (see gSkipInit)
+	ExtraPkgs      []string `json:"extra_pkgs"` // further packages holding Verif<ID>_* harnesses of this property
 	Title          string   `json:"title"`
 	MapOrderMax    int      `json:"map_order_max"`
 	MaxThreads     int      `json:"max_threads"`
@@ -188,12 +190,41 @@ func cmdCheck(args []string) int {
 	}
 	defer ov.cleanup()
 	gEagerSSA = cfg.EagerSSA
+	for _, p := range cfg.SkipInit {
+		gSkipInit[p] = true
+	}
 	ld, err := loadPackage(cfg.Pkg, ov)
 	if err != nil {
 		fmt.Println("ERROR: load:", err)
 		return 2
 	}
 	fns := ld.harnessFuncs(id)
+	// harnesses of the same property that live in other packages (check json "extra_pkgs"): each package is loaded
+	// into its own SSA program; fnLd / fnPkg remember where a harness function came from
+	fnLd := map[*ssa.Function]*Loaded{}
+	fnPkg := map[string]string{}
+	for _, f := range fns {
+		fnLd[f], fnPkg[f.Name()] = ld, cfg.Pkg
+	}
+	for _, xp := range cfg.ExtraPkgs {
+		xld, err := loadPackage(xp, ov)
+		if err != nil {
+			fmt.Println("ERROR: load:", xp, err)
+			return 2
+		}
+		xf := xld.harnessFuncs(id)
+		if len(xf) == 0 {
+			fmt.Println("ERROR: no harness functions Verif" + id + "_* in " + xp)
+			return 2
+		}
+		for _, f := range xf {
+			fnLd[f], fnPkg[f.Name()] = xld, xp
+		}
+		fns = append(fns, xf...)
+		ld.npkgs += xld.npkgs
+		ld.loadSecs += xld.loadSecs
+		ld.ssaSecs += xld.ssaSecs
+	}
 	if *only != "" {
 		var f2 []*ssa.Function
 		for _, f := range fns {
@@ -248,7 +279,7 @@ func cmdCheck(args []string) int {
 
 	var results []*HarnessResult
 	for _, fn := range fns {
-		h := &Harness{Name: fn.Name(), Prop: id, Pkg: cfg.Pkg, Tier: tierN, MapOrderMax: cfg.MapOrderMax, MaxThreads: cfg.MaxThreads,
+		h := &Harness{Name: fn.Name(), Prop: id, Pkg: fnPkg[fn.Name()], Tier: tierN, MapOrderMax: cfg.MapOrderMax, MaxThreads: cfg.MaxThreads,
 			MaxSchedPoints: cfg.MaxSchedPoints, MaxDecisions: cfg.MaxDecisions, KnownActive: knownActive, ConcIndexMax: cfg.ConcIndexMax}
 		if h.MaxThreads == 0 {
 			h.MaxThreads = 8
@@ -268,7 +299,7 @@ func cmdCheck(args []string) int {
 		if h.MaxDecisions == 0 {
 			h.MaxDecisions = 4000
 		}
-		ex := &Explorer{ld: ld, fn: fn, h: h, nworkers: nw, maxPaths: maxPaths, deadline: time.Now().Add(time.Duration(budget) * time.Second), maxVec: 64}
+		ex := &Explorer{ld: fnLd[fn], fn: fn, h: h, nworkers: nw, maxPaths: maxPaths, deadline: time.Now().Add(time.Duration(budget) * time.Second), maxVec: 64}
 		if tierN == 1 {
 			ex.maxVec = 256
 		}
@@ -323,7 +354,7 @@ func cmdCheck(args []string) int {
 			vecs = append(vecs, violationVector(h0, v))
 		}
 		if len(vecs) > 0 {
-			nres, err := runNative(ov, cfg.Pkg, vecs)
+			nres, err := runNativePkgs(ov, fnPkg, vecs)
 			if err != nil {
 				fmt.Println("  NATIVE-ERROR:", err)
 				exit = 2
@@ -343,7 +374,7 @@ func cmdCheck(args []string) int {
 					nr := nres[nOK+i]
 					if strings.HasPrefix(nr.Status, "assert:") || strings.HasPrefix(nr.Status, "panic:") {
 						confirmed = append(confirmed, v)
-						p, err := writeReplay(id, cfg.Pkg, v, vecs[nOK+i], nr.Status)
+						p, err := writeReplay(id, fnPkg[v.Harness], v, vecs[nOK+i], nr.Status)
 						if err != nil {
 							fmt.Println("  ERROR writing replay:", err)
 						}
@@ -416,6 +447,34 @@ func cmdCheck(args []string) int {
 		fmt.Printf("INCONCLUSIVE property=%s (check is broken or bound too large; see lines above) wall=%.1fs solver_queries=%d solver_s=%.1f\n", id, wall, atomic.LoadInt64(&gStats.Queries), float64(gStats.Nanos)/1e9)
 	}
 	return exit
+}
+
+// runNativePkgs runs the vectors natively, one `go test` per package, and returns the results in the order of vecs.
+func runNativePkgs(ov *overlaySet, fnPkg map[string]string, vecs []*Vector) ([]nativeResult, error) {
+	byPkg := map[string][]int{}
+	var order []string
+	for i, v := range vecs {
+		p := fnPkg[v.Harness]
+		if _, ok := byPkg[p]; !ok {
+			order = append(order, p)
+		}
+		byPkg[p] = append(byPkg[p], i)
+	}
+	res := make([]nativeResult, len(vecs))
+	for _, p := range order {
+		sub := make([]*Vector, 0, len(byPkg[p]))
+		for _, i := range byPkg[p] {
+			sub = append(sub, vecs[i])
+		}
+		r, err := runNative(ov, p, sub)
+		if err != nil {
+			return nil, err
+		}
+		for k, i := range byPkg[p] {
+			res[i] = r[k]
+		}
+	}
+	return res, nil
 }
 
 // reachLabels finds the constant labels of vfReach calls in fn and the harness-file functions it references.
